@@ -43,7 +43,9 @@ MAPS_H5 = [None, {}, {'svg': NS_SVG, 'math': NS_MATHML, 'xl': NS_XLINK, 'h': NS_
            {'svg': NS_SVG}, {'svg': NS_SVG, '': NS_XHTML}, {'h': NS_XHTML, '': NS_SVG}, {'xl': NS_XLINK, '': ''},
            {'p1': NS_SVG, 'p2': NS_XLINK, '': NS_XHTML}, {'svg': 'urn:other'},
            # a caller's prefix spelled like the one soupsieve uses internally for its HTML-only selector lists
-           {'html': NS_SVG, 'h': NS_XHTML}, {'html': NS_XHTML, 'svg': NS_SVG}, {'html': NS_MATHML, '': NS_XHTML}]
+           {'html': NS_SVG, 'h': NS_XHTML}, {'html': NS_XHTML, 'svg': NS_SVG}, {'html': NS_MATHML, '': NS_XHTML},
+           # URIs are compared exactly: these differ from the real ones in letter case only
+           {'svg': NS_SVG.replace('svg', 'SVG'), 'h': NS_XHTML.upper()}, {'': NS_XHTML.replace('xhtml', 'XHTML'), 'svg': NS_SVG}]
 
 
 def plan(tier, seed):
@@ -176,6 +178,10 @@ def _cfg(prefixes, aprefixes, names, anames, default_in_map):
                     p_struct=.08, p_more=.35, p_logical=.3, flags=[None],
                     extra=[(.06, lambda r, d: ('nth', 'nth-child', r.choice([0, 2]), 1,
                                                [[{'tag': (r.choice(prefixes), r.choice(names))}]], None)),
+                           (.06, lambda r, d: ('nth', r.choice(['nth-child', 'nth-last-child']), r.choice([0, 1, 2]), r.choice([1, 2]),
+                                               [[{'tag': None, 'ids': [], 'classes': ['x'], 'attrs': [], 'pseudos': []} if r.random() < .6 else
+                                                 {'tag': None, 'ids': [], 'classes': [], 'attrs': [(None, r.choice(anames), None, None, None)], 'pseudos': []}]],
+                                               None)),
                            (.12, lambda r, d: ('pc', r.choice(PCS)))])
 
 
